@@ -67,7 +67,7 @@ let rec ty_of (x : sexp) : ty =
   | L [A "fun"; a; b] -> TFun (ty_of a, ty_of b)
   | L (A "rec" :: fs) -> TRec (rows_of fs)
   | L [A "dict"; t] -> TDict (ty_of t)
-  | L (A "enum" :: tags) -> TEnum (List.map str tags)
+  | L (A "enum" :: rows) -> TEnum (erows_of rows)
   | L [A "tvar"; A n] -> TVar (nat_of_int (int_of_string n))
   | L [A "forall"; t] -> TForall (ty_of t)
   | _ -> failwith "bad type"
@@ -75,6 +75,11 @@ and rows_of = function
   | [] -> RNil
   | L [f; t] :: r -> RCons (str f, ty_of t, rows_of r)
   | _ -> failwith "bad rows"
+and erows_of = function
+  | [] -> ENil
+  | L [t; ty] :: r -> EArg (str t, ty_of ty, erows_of r)
+  | (S _ as t) :: r -> EBare (str t, erows_of r)
+  | _ -> failwith "bad enum rows"
 
 let prim_of = function
   | "add" -> PAdd | "sub" -> PSub | "mul" -> PMul | "div" -> PDiv
@@ -98,15 +103,18 @@ let rec tm_of (x : sexp) : tm =
   | L (A "rec" :: fs) -> Rec (List.map (function L [f; e] -> (str f, tm_of e) | _ -> failwith "bad field") fs)
   | L [A "proj"; e; f] -> Proj (tm_of e, str f)
   | L [A "tag"; t] -> Tag (str t)
-  | L [A "match"; e; L bs] ->
-      Match (tm_of e, List.map (function L [t; b] -> (str t, tm_of b) | _ -> failwith "bad branch") bs, None)
-  | L [A "match"; e; L bs; d] ->
-      Match (tm_of e, List.map (function L [t; b] -> (str t, tm_of b) | _ -> failwith "bad branch") bs, Some (tm_of d))
+  | L [A "variant"; t; e] -> Variant (str t, tm_of e)
+  | L [A "match"; e; L bs] -> Match (tm_of e, List.map branch_of bs, None)
+  | L [A "match"; e; L bs; d] -> Match (tm_of e, List.map branch_of bs, Some (tm_of d))
   | L [A "prim"; A o] -> Prim (prim_of o)
   | L [A "annt"; e; t] -> AnnT (tm_of e, ty_of t)
   | L [A "untyped"; u] -> Untyped (tm_of u)
   | L [A "cast"; e; t] -> Cast (tm_of e, ty_of t)
   | _ -> failwith "bad term"
+and branch_of = function
+  | L [t; b] -> ((str t, None), tm_of b)
+  | L [t; x; b] -> ((str t, Some (str x)), tm_of b)
+  | _ -> failwith "bad branch"
 
 let json_str (s : string) : string =
   let b = Buffer.create (String.length s + 2) in
@@ -138,6 +146,7 @@ let rec show (d : dval) : string =
       let l = List.sort compare (List.map (fun (f, v) -> (f, show v)) l) in
       "{" ^ String.concat "," (List.map (fun (f, v) -> json_str f ^ ":" ^ v) l) ^ "}"
   | DFun -> "<fun>"
+  | DVariant (t, v) -> "('" ^ json_str t ^ " " ^ show v ^ ")"
 
 let mode = function MTyped -> "typed" | MUntyped -> "untyped"
 
@@ -167,17 +176,20 @@ let rec atm_of (x : sexp) : atm =
   | L [A "aarr"; t; L es] -> AArr (ty_of t, List.map atm_of es)
   | L (A "arec" :: fs) -> ARec (List.map (function L [f; e] -> (str f, atm_of e) | _ -> failwith "bad field") fs)
   | L [A "aproj"; e; f] -> AProj (atm_of e, str f)
-  | L [A "atag"; t; L tags] -> ATag (str t, List.map str tags)
-  | L [A "amatch"; e; t; L bs] ->
-      AMatch (atm_of e, ty_of t, List.map (function L [t; b] -> (str t, atm_of b) | _ -> failwith "bad branch") bs, None)
-  | L [A "amatch"; e; t; L bs; d] ->
-      AMatch (atm_of e, ty_of t, List.map (function L [t; b] -> (str t, atm_of b) | _ -> failwith "bad branch") bs, Some (atm_of d))
+  | L [A "atag"; t; L rows] -> ATag (str t, erows_of rows)
+  | L [A "avariant"; t; e; L rows] -> AVariant (str t, atm_of e, erows_of rows)
+  | L [A "amatch"; e; t; L bs] -> AMatch (atm_of e, ty_of t, List.map abranch_of bs, None)
+  | L [A "amatch"; e; t; L bs; d] -> AMatch (atm_of e, ty_of t, List.map abranch_of bs, Some (atm_of d))
   | L [A "aprim"; A o; L insts] -> APrim (prim_of o, List.map ty_of insts)
   | L [A "aannt"; e; t] -> AAnnT (atm_of e, ty_of t)
   | L [A "auntyped"; u] -> AUntyped (tm_of u)
   | L [A "acast"; e; t] -> ACast (atm_of e, ty_of t)
   | L [A "asub"; e; t] -> ASub (atm_of e, ty_of t)
   | _ -> failwith "bad certificate"
+and abranch_of = function
+  | L [t; b] -> ((str t, None), atm_of b)
+  | L [t; x; b] -> ((str t, Some (str x)), atm_of b)
+  | _ -> failwith "bad branch"
 
 (* cert mode: <certificate> TAB <type> TAB <term>.  The certificate must be accepted by the extracted
    [check_deriv] at the type, and its erasure must be the very term the evaluator runs. *)
